@@ -654,8 +654,8 @@ func c48GenIntervals(c *hlib.Ctx, series []c48Series) []string {
 
 func genC48(c *hlib.Ctx) {
 	r := c.R
-	n := c.N(3000, 150000)
-	blockEvery := c.N(100, 300)
+	n := c.N(3000, 60000)
+	blockEvery := c.N(100, 400)
 	names := []string{"a", "b", "job", "z"}
 	vals := []string{"1", "2", "foo", "bar", "x y"}
 	for i := 0; i < n; i++ {
